@@ -318,6 +318,11 @@ def c05_tv_case(args):
             report(f"message of binding {impl.name}: expected id {fid}, dlc {(bits + 7) // 8}, {len(lay)} signals; "
                    f"DBC has {None if msg is None else (msg['name'], msg['dlc'], len(msg['signals']))}", ob=ob + "|message")
             continue
+        if msg["extended"] != (fid > 0x7FF):
+            # BO_ ids carry the frame format in bit 31: an 11-bit id written as an extended frame is another frame
+            report(f"message of binding {impl.name}: id {fid} is written as {'an extended (29-bit)' if msg['extended'] else 'a standard (11-bit)'} "
+                   f"frame in the DBC (BO_ {fid | (0x80000000 if msg['extended'] else 0)})", ob=ob + "|message")
+            continue
         res["discharged"] += 1
         seen_msgs[bus].add(fid)
         muxers = {v.extended_data.get("mux_signal") for v in lay if v.extended_data.get("mux_signal")}
@@ -612,6 +617,20 @@ def c14_concrete_cases():
                    impls=[("can", "Status", None, {"id": 40, "device": "ecu"}, []),
                           ("can", "Log", None, {"id": 41, "device": "ecu"}, [])])
         cases.append(("second_binding", s, False))
+    # the documented (and by the packed layout ignored) signal option `bitstart`, written non-monotonically: the
+    # message is still as wide as the sum of its fields
+    for widths, sigs, fits in (([60, 8, 8], [("f1", {"bitstart": 60}), ("f2", {"bitstart": 16})], False),
+                               ([8, 60], [("f0", {"bitstart": 60}), ("f1", {"bitstart": 0})], False),
+                               ([8, 8], [("f1", {"bitstart": 32})], True)):
+        s = Schema(structs=[("S", [(f"f{i}", i, ("u", w)) for i, w in enumerate(widths)])],
+                   impls=[("can", "S", None, {"id": 5, "device": "ecu"}, sigs)])
+        cases.append(("size_bitstart_option", s, fits))
+    # an enum decides whether the message fits (the warm-up generation sees a same-named narrower enum)
+    for w0, fits in ((56, False), (55, True)):
+        s = Schema(structs=[("S", [("a", 0, ("u", w0)), ("e", 1, ("enum", "Mode"))])],
+                   enums={"Mode": [("Off", 0), ("On", 1), ("Max", 300)]},
+                   impls=[("can", "S", None, {"id": 5, "device": "ecu"}, [])])
+        cases.append(("size_enum", s, fits))
     # renamed bindings ('as'), several bindings of one struct
     s = Schema(structs=[("S", [("a", 0, ("u", 64)), ("b", 1, ("u", 8))])],
                impls=[("can", "S", "BigFrame", {"id": 5, "device": "ecu"}, [])])
@@ -632,7 +651,9 @@ def c14_concrete_case(args):
     for gen in ("dbc", "can_c"):
         ob = f"concrete/{gen}/{kind}/{schema.describe()}"
         res["obligations"].append(ob)
-        p, before, after = real_plugin_run(gen, text, fits, warmup=True)
+        from ..prime import decoy_text
+        dtext = decoy_text(schema)
+        p, before, after = real_plugin_run(gen, text, fits, warmup=True, warmup_text=dtext)
         import json
         try:
             st = json.loads((p.stdout.strip().splitlines() or ["{}"])[-1])
@@ -649,6 +670,7 @@ def c14_concrete_case(args):
                 bad = f"'{gen}' generation failed for a binding of <= 64 bits: {p.stderr[-160:]}"
         if bad:
             path = write_replay("C14", {"kind": "c14_concrete", "generator": gen, "schema_text": text, "fits": fits, "warmup": True,
+                                        "warmup_text": dtext,
                                         "property": "C14", "what": bad})
             ok, t = run_replay(path)
             if ok:
